@@ -244,7 +244,15 @@ def shaped_forests():
     both_b = var(b"from_origin", [Attr("DW_AT_decl_line", "DW_FORM_data1", 5), Attr("DW_AT_byte_size", "DW_FORM_data1", 16)])
     both = Die("DW_TAG_variable", [Attr("DW_AT_specification", "DW_FORM_ref4", both_a), Attr("DW_AT_abstract_origin", "DW_FORM_ref4", both_b)])
     both2 = Die("DW_TAG_variable", [Attr("DW_AT_abstract_origin", "DW_FORM_ref4", both_b), Attr("DW_AT_specification", "DW_FORM_ref4", both_a)])
-    out.append(("chains", Forest([cu(b"ch", chain + [both_a, both_b, both, both2])])))
+    # an attribute whose decoding depends on the DIE that has it, two and three links away
+    schar = Die("DW_TAG_base_type", [Attr("DW_AT_name", "DW_FORM_string", b"schar"), Attr("DW_AT_byte_size", "DW_FORM_data1", 1),
+                                     Attr("DW_AT_encoding", "DW_FORM_data1", C("DW_ATE_signed_char"))])
+    far = Die("DW_TAG_enumerator", [Attr("DW_AT_name", "DW_FORM_string", b"far"), Attr("DW_AT_const_value", "DW_FORM_data1", 0xff)])
+    enum_t = Die("DW_TAG_enumeration_type", [Attr("DW_AT_name", "DW_FORM_string", b"E"), Attr("DW_AT_type", "DW_FORM_ref4", schar)], [far])
+    hop1 = Die("DW_TAG_variable", [Attr("DW_AT_specification", "DW_FORM_ref4", far)])
+    hop2 = Die("DW_TAG_member", [Attr("DW_AT_abstract_origin", "DW_FORM_ref4", hop1)])
+    hop3 = Die("DW_TAG_member", [Attr("DW_AT_specification", "DW_FORM_ref4", hop2), Attr("DW_AT_decl_line", "DW_FORM_data1", 3)])
+    out.append(("chains", Forest([cu(b"ch", chain + [both_a, both_b, both, both2, schar, enum_t, hop1, hop2, hop3])])))
     for _, f in out:
         fix_small_refs(f)
     return out
